@@ -501,7 +501,8 @@ func DateRangeFunc(query *Query, current Map, functionOptions *FunctionOptions, 
 	if args[1] != nil {
 		to = fmt.Sprintf("%v", args[1])
 	}
-	return []string{from, to}, nil
+	// (an array like any other: FIRST, LAST, ELEMENTAT and UNWIND take it)
+	return []any{from, to}, nil
 }
 
 //	Constant
